@@ -1061,28 +1061,36 @@ Definition types_atoms (f : flags) : list atom :=
 Lemma types_sym_ok :
   forallb (fun f => negb (fl_proto f) || fl_svc f || opt_atoms_eqb (sym_filename f types_tpl) (types_atoms f)) all_flags = true.
 Proof. vm_compute. reflexivity. Qed.
+Global Opaque sym_filename.
+Lemma types_sym f : fl_proto f = true -> fl_svc f = false -> sym_filename f types_tpl = Some (types_atoms f).
+Proof.
+  intros Hp Hs. pose proof types_sym_ok as F. rewrite forallb_forall in F. specialize (F f (all_flags_complete f)).
+  rewrite Hp, Hs in F. cbn [negb orb] in F. now apply opt_atoms_eqb_eq.
+Qed.
 Lemma types_module_name a old sub m : wf_rapi a old -> Forall word sub -> word m ->
   inst_name a (mk_inst types_tpl sub None (Some m)) =
   root_of a ++ "/" ++ (match sub with [] => "" | _ => sjoin "/" sub ++ "/" end) ++ "types/" ++ m ++ ".py".
 Proof.
-  intros W Hsub Hm. set (i := mk_inst types_tpl sub None (Some m)).
-  assert (Hwf : inst_wf i) by (repeat split; cbn; [assumption | discriminate | intros p E; inversion E; now subst]).
-  pose proof types_sym_ok as F. rewrite forallb_forall in F. specialize (F (flags_of a old i) (all_flags_complete _)).
-  cbn [flags_of fl_proto fl_svc i mk_inst i_proto i_service is_some negb orb] in F. apply opt_atoms_eqb_eq in F.
-  rewrite (inst_name_sym a old i _ W Hwf F). unfold types_atoms. rewrite !conc_app.
-  unfold root_atoms. rewrite conc_app, conc_ns_atoms, (conc_nv_atoms a old i W), !conc_atoms_of. unfold root_of.
-  cbn [flags_of fl_sub i mk_inst i_view]. destruct sub as [|n sub']; cbn [conc val_of i mk_inst i_view i_proto opt_str];
+  intros W Hsub Hm.
+  assert (Hwf : inst_wf (mk_inst types_tpl sub None (Some m))).
+  { repeat split; cbn; [assumption | discriminate | intros p E; inversion E; now subst]. }
+  rewrite (inst_name_sym a old _ _ W Hwf (types_sym (flags_of a old (mk_inst types_tpl sub None (Some m))) eq_refl eq_refl)).
+  unfold types_atoms, root_atoms. rewrite !conc_app, conc_ns_atoms, (conc_nv_atoms a old _ W), !conc_atoms_of.
+  unfold root_of, flags_of. cbn [fl_sub mk_inst i_view].
+  destruct sub as [|n sub']; cbn [conc val_of mk_inst i_view i_proto opt_str];
     rewrite ?sapp_assoc; cbn [append]; rewrite ?sapp_nil_r, ?sapp_assoc; reflexivity.
 Qed.
 
 (* ------------------------------------------------------------------ dependency files *)
 (* every target proto of the model stems from a request file whose package has the target package as a STRING prefix ... *)
+Definition target_package (files : list pfile) (to_generate : list string) : string :=
+  rstrip_dots (commonprefix (map pf_package (filter (fun f => mem_str (pf_name f) to_generate) files))).
 Lemma protos_from_prefixed_files files to_generate o a : build_rapi files to_generate o = Ok a ->
-  let package := rstrip_dots (commonprefix (map pf_package (filter (fun f => mem_str (pf_name f) to_generate) files))) in
   forall u, In u (ra_protos a) ->
-  exists f, In f (sanitize_all [] files) /\ starts_with package (pf_package f) = true /\ u_module u = proto_module (pf_name f).
+  exists f, In f (sanitize_all [] files) /\ starts_with (target_package files to_generate) (pf_package f) = true
+            /\ u_module u = proto_module (pf_name f).
 Proof.
-  unfold build_rapi. intros H package u Hu. apply bind_ok in H as (n & _ & H). inversion H; subst a. clear H.
+  unfold build_rapi, target_package. cbv zeta. intros H u Hu. apply bind_ok in H as (n & _ & H). inversion H; subst a. clear H.
   cbn [ra_protos] in Hu. apply in_map_iff in Hu as (f & <- & Hf). apply filter_In in Hf as [Hf Hp].
   exists f. auto.
 Qed.
@@ -1131,7 +1139,7 @@ Lemma example_ok :
     In "google/cloud/big_query_v1beta1/sub/types/extra.py" names /\
     In "google/cloud/big_query_v1beta1/sub/services/aux_2b/transports/__init__.py" names /\
     In "google/cloud/big_query_v1beta1/services/iam/transports/rest.py" names /\
-    In "google/cloud/big_query/__init__.py" names /\ List.length names = 127.
+    In "google/cloud/big_query/__init__.py" names /\ List.length names = 85.
 Proof.
   split; [|split].
   - constructor; try (vm_compute; reflexivity); [right; vm_compute; reflexivity | right; vm_compute; reflexivity|].
